@@ -177,9 +177,100 @@ func (e *Encoder) havocKeeping(st *State, why string, exclude map[*ssa.BasicBloc
 		}
 		ks = append(ks, kept{al, e.load(st, e.vals[al].S, pt.Elem())})
 	}
+	// captured variables of a closure that nobody ever reassigns (one initialising store in the enclosing
+	// function, every capturing closure only reads them) keep their value as well
+	type keptFV struct {
+		fv *ssa.FreeVar
+		v  Val
+	}
+	var kfs []keptFV
+	for _, fv := range e.fn.FreeVars {
+		pt, ok := fv.Type().Underlying().(*types.Pointer)
+		if !ok || !immutableFreeVar(e.fn, fv) {
+			continue
+		}
+		switch pt.Elem().Underlying().(type) {
+		case *types.Array:
+			continue
+		}
+		kfs = append(kfs, keptFV{fv, e.load(st, e.val(fv).S, pt.Elem())})
+	}
+	// the state protected by the monitors this thread holds cannot be changed by a callee or another thread
+	// (not at a loop head: there the havoc stands for arbitrarily many iterations, which may wait and update ghosts)
+	restore := func() {}
+	if exclude == nil {
+		restore = e.saveHeldState(st)
+	} else if !e.loopWaitsBlocks(exclude) {
+		restore = e.saveTokens(st) // ghost actions inside loops are rejected, so tokens survive a loop that does not wait
+	}
+	// locations the contract declares frozen (immutable configuration)
+	type keptLoc struct {
+		loc string
+		t   types.Type
+		v   string
+	}
+	var kls []keptLoc
+	for _, f := range e.frozen {
+		kls = append(kls, keptLoc{f.loc, f.t, e.load(st, f.loc, f.t).S})
+	}
+	defer func() {
+		for _, k := range kls {
+			e.store(st, k.loc, k.t, k.v)
+		}
+	}()
 	e.havocRaw(st, why)
 	for _, k := range ks {
 		pt := k.al.Type().Underlying().(*types.Pointer)
 		e.store(st, e.vals[k.al].S, pt.Elem(), k.v.S)
 	}
+	for _, k := range kfs {
+		pt := k.fv.Type().Underlying().(*types.Pointer)
+		e.store(st, e.val(k.fv).S, pt.Elem(), k.v.S)
+	}
+	restore()
+}
+
+// immutableFreeVar: the captured variable has exactly one store in the function that declares it (its
+// initialisation) and every closure that captures it only reads it.
+func immutableFreeVar(fn *ssa.Function, fv *ssa.FreeVar) bool {
+	idx := -1
+	for i, f := range fn.FreeVars {
+		if f == fv {
+			idx = i
+		}
+	}
+	parent := fn.Parent()
+	if idx < 0 || parent == nil || !readOnlyFreeVar(fv, 0) {
+		return false
+	}
+	for _, b := range parent.Blocks {
+		for _, in := range b.Instrs {
+			mc, ok := in.(*ssa.MakeClosure)
+			if !ok || mc.Fn != ssa.Value(fn) || idx >= len(mc.Bindings) {
+				continue
+			}
+			switch bv := mc.Bindings[idx].(type) {
+			case *ssa.Alloc:
+				return singleStoreAlloc(bv)
+			case *ssa.FreeVar:
+				return immutableFreeVar(parent, bv)
+			}
+			return false
+		}
+	}
+	return false
+}
+
+// singleStoreAlloc: the variable is assigned exactly once in its function and closures only read it.
+func singleStoreAlloc(al *ssa.Alloc) bool {
+	if al.Referrers() == nil || !stableAlloc(al) {
+		return false
+	}
+	stores := 0
+	for _, r := range *al.Referrers() {
+		if s, ok := r.(*ssa.Store); ok && s.Addr == ssa.Value(al) {
+			stores++
+		}
+	}
+	return stores <= 1
 }
